@@ -27,7 +27,7 @@ REQUIRED_FEATURES = ["arg.plain", "arg.escaped", "arg.empty", "arg.missing_defau
 
 def shards(tier, seed):
     m = 16 if tier == "quick" else 48
-    n = 260 if tier == "quick" else 4000
+    n = 260 if tier == "quick" else 1500
     return [{"part": k, "n": n} for k in range(m)]
 
 
